@@ -16,6 +16,11 @@
    vectors.  For every decision function the pass counts, per object (each local bound to a
    `location_table.get_entry(...)` result; `self.ego_position_vector`), the number of loads of the vector.
    `Props.C07.position_vectors_read_once_of_source` requires every count to be <= 1 (`decide`).
+
+3. Whose vector is Annex D's PV_SE.  For `gn_forwarding_algorithm_selection` and `gn_data_indicate_gac`: for every call of
+   `gn_geometric_function_f`, where its latitude/longitude arguments come from: the ego vector, a LOCATION TABLE entry's
+   vector, or the SO PV of the packet header.  After out-of-order receptions the table holds a newer vector than the
+   header (annex C.2); `Props.C07.annexD_sender_vector_from_location_table_of_source` requires [ego, locT] in both.
 """
 from __future__ import annotations
 
@@ -127,9 +132,55 @@ def pv_loads(fn):
     return out
 
 
+def _origin_of_expr(expr, entries):
+    """where a position-vector expression comes from: 'ego' (self.ego_position_vector), 'locT' (the `.position_vector` of
+    a local bound to a get_entry() result), 'header' (an `.so_pv` of a decoded header), 'other'"""
+    kinds = set()
+    for x in ast.walk(expr):
+        if isinstance(x, ast.Attribute):
+            if x.attr == "ego_position_vector":
+                kinds.add("ego")
+            elif x.attr == "position_vector" and isinstance(x.value, ast.Name) and x.value.id in entries:
+                kinds.add("locT")
+            elif x.attr in ("so_pv", "de_pv"):
+                kinds.add("header")
+    return kinds.pop() if len(kinds) == 1 else ("other" if not kinds else "+".join(sorted(kinds)))
+
+
+def f_arg_origins(fn):
+    """for every call of `gn_geometric_function_f` inside `fn`, in source order: where the position it is evaluated at
+    comes from (latitude and longitude arguments; both must have the same origin).  A local (`ego_pv`, `so_pv`, ...) is
+    resolved through ALL its assignments inside the function; names are not part of the result."""
+    entries, assigns = [], {}
+    for x in ast.walk(fn):
+        if isinstance(x, ast.Assign) and len(x.targets) == 1 and isinstance(x.targets[0], ast.Name):
+            assigns.setdefault(x.targets[0].id, []).append(x.value)
+            if isinstance(x.value, ast.Call) and _call_name(x.value) == "get_entry":
+                entries.append(x.targets[0].id)
+
+    def origin(arg):
+        # <local>.latitude / <local>.longitude -> the origin of the local; anything else -> the expression itself
+        if isinstance(arg, ast.Attribute) and isinstance(arg.value, ast.Name) and arg.value.id in assigns:
+            # `x = None` (the "no vector" default) is not an origin
+            ks = {_origin_of_expr(v, entries) for v in assigns[arg.value.id]
+                  if not (isinstance(v, ast.Constant) and v.value is None)} or {"other"}
+            return ks.pop() if len(ks) == 1 else "+".join(sorted(ks))
+        return _origin_of_expr(arg, entries)
+    out = []
+    calls = sorted((x for x in ast.walk(fn) if isinstance(x, ast.Call) and _call_name(x) == "gn_geometric_function_f"), key=_pos)
+    for c in calls:
+        args = list(c.args) + [k.value for k in c.keywords]
+        ks = [origin(a) for a in args[2:4]]
+        out.append(ks[0] if len(ks) == 2 and ks[0] == ks[1] else "mixed:" + "/".join(ks))
+    return out
+
+
 def analyse():
     fns = _router_functions()
-    info = {"guards": {}, "loads": [], "gacDelegates": False}
+    info = {"guards": {}, "loads": [], "gacDelegates": False, "fArgs": []}
+    for name in ("gn_forwarding_algorithm_selection", "gn_data_indicate_gac"):
+        if name in fns:
+            info["fArgs"].append((name, f_arg_origins(fns[name])))
     for name in REQUEST_FNS:
         if name in fns:
             info["guards"][name] = size_guard_facts(fns[name], SRC_EFFECT_CALLS, True)
@@ -169,6 +220,10 @@ def gen_area_facts():
     body += ("/-- (function, object, number of loads of the position vector of that object inside the function) -/\n"
              "def pvLoads : List (String × String × Nat) := [" +
              ", ".join(f'("{f}", "{o}", {n})' for f, o, n in info["loads"]) + "]\n")
+    body += ("/-- (function, for each call of `gn_geometric_function_f` in source order: where the position comes from - `ego` =\n"
+             "self.ego_position_vector, `locT` = the position vector of a location table entry, `header` = the SO PV of the packet) -/\n"
+             "def fArgOrigins : List (String × List String) := [" +
+             ", ".join('("%s", [%s])' % (f, ", ".join('"%s"' % k for k in ks)) for f, ks in info["fArgs"]) + "]\n")
     body += "end Generated.AreaFacts\n"
     write_if_changed("AreaFacts.lean", body)
 
